@@ -7,7 +7,7 @@ use crate::sim::net::{key, user_data, PROTO};
 use crate::sim::world::make_content;
 use bytes::Bytes;
 use renet::{ChannelConfig, ConnectionConfig, DisconnectReason, RenetClient, RenetServer, SendType, ServerEvent};
-use renet_netcode::{ClientAuthentication, ConnectToken, NetcodeClientTransport, NetcodeServerTransport, ServerAuthentication, ServerConfig};
+use renet_netcode::{ClientAuthentication, ConnectToken, NetcodeClientTransport, NetcodeServerTransport, NetcodeTransportError, ServerAuthentication, ServerConfig};
 use std::collections::{BTreeMap, BTreeSet, VecDeque};
 use std::net::{SocketAddr, UdpSocket};
 use std::time::Duration;
@@ -31,6 +31,12 @@ fn stack_config(server_side: bool) -> ConnectionConfig {
     mine.push(extra(4, BIG));
     theirs.push(extra(3, TIGHT));
     c
+}
+
+/// 'Nothing more to read' on a non-blocking socket is how every receive loop ends; a transport that reports it as an error
+/// stops working although the socket is fine.
+fn spurious_io(e: &NetcodeTransportError) -> bool {
+    matches!(e, NetcodeTransportError::IO(io) if matches!(io.kind(), std::io::ErrorKind::WouldBlock | std::io::ErrorKind::Interrupted))
 }
 
 fn sock() -> Result<UdpSocket, Fail> {
@@ -428,7 +434,11 @@ impl Net {
             let c = &mut self.clients[ci];
             c.client.update(dt);
             let was = c.client.is_disconnected();
-            let _ = c.transport.update(dt, &mut c.client);
+            if let Err(e) = c.transport.update(dt, &mut c.client) {
+                if spurious_io(&e) {
+                    return Err(Fail::new("transport_reports_wouldblock", format!("NetcodeClientTransport::update of client object {ci} returned {e} although its socket only had nothing more to read")));
+                }
+            }
             if c.client.is_connected() {
                 c.ever_connected_client = true;
             }
@@ -451,6 +461,9 @@ impl Net {
         // server: receive, update clients, push renet disconnects down
         self.server.update(dt);
         if let Err(e) = self.st.update(dt, &mut self.server) {
+            if spurious_io(&e) {
+                return Err(Fail::new("transport_reports_wouldblock", format!("NetcodeServerTransport::update returned {e} although its socket only had nothing more to read")));
+            }
             return Err(Fail::new("server_transport_error", e.to_string()).sig("harness_io"));
         }
         self.events(ctx)?;
@@ -540,7 +553,7 @@ impl Property for C20 {
         "fault_enumeration"
     }
     fn rule(&self) -> String {
-        "A case runs the real NetcodeServerTransport and 1-3 NetcodeClientTransports (plus reconnecting client objects with new tokens; some tokens list a silent address before the real one, so the client fails over first) on loopback UDP sockets through an in-path relay that the harness thread pumps after every transport call. Relay fault decision per (client, direction, datagram): forward / drop / duplicate / delay 1-6 ticks (hence reorder) / flip one bit / forward and replay an old datagram of that link; whole-silence periods; application traffic on all three default channels in both directions and broadcasts; disconnects decided by RenetClient::disconnect, NetcodeClientTransport::disconnect, RenetServer::disconnect, NetcodeServerTransport::disconnect_all, by silence (timeouts) and by the receiving message layer itself while it processes a datagram (a peer sends more than the receiver's budget of the extra channel 3, or on a channel only the sender knows); reconnects. Oracles: right after every NetcodeServerTransport::update the ids the message layer reports connected equal the ids the netcode layer holds (client_addr, connected_clients), no disconnected connection is left, and equal the ids open in the ServerEvent stream, which alternates per id and only names ids that hold a token; every message obtained over the full stack satisfies the ordered-prefix / unordered-at-most-once / unreliable-membership oracles of its session; after the faults stop and timeout + 3 s of fault-free ticks every session for which a disconnect was decided anywhere has ended on both sides, and every session that stayed healthy has obtained all reliable messages; in 'gentle' cases (no disconnect operation, no silence, at least one genuine datagram per direction forwarded in every third of the timeout) nobody is ever disconnected whatever else the relay does. Non-trivial: at least one corrupted or replayed datagram after a handshake completed and at least one relay fault. Distinct = hash of the decoded operation trace.".into()
+        "A case runs the real NetcodeServerTransport and 1-3 NetcodeClientTransports (plus reconnecting client objects with new tokens; some tokens list a silent address before the real one, so the client fails over first) on loopback UDP sockets through an in-path relay that the harness thread pumps after every transport call. Relay fault decision per (client, direction, datagram): forward / drop / duplicate / delay 1-6 ticks (hence reorder) / flip one bit / forward and replay an old datagram of that link; whole-silence periods; application traffic on all three default channels in both directions and broadcasts; disconnects decided by RenetClient::disconnect, NetcodeClientTransport::disconnect, RenetServer::disconnect, NetcodeServerTransport::disconnect_all, by silence (timeouts) and by the receiving message layer itself while it processes a datagram (a peer sends more than the receiver's budget of the extra channel 3, or on a channel only the sender knows); reconnects. Oracles: right after every NetcodeServerTransport::update the ids the message layer reports connected equal the ids the netcode layer holds (client_addr, connected_clients), no disconnected connection is left, and equal the ids open in the ServerEvent stream, which alternates per id and only names ids that hold a token; every message obtained over the full stack satisfies the ordered-prefix / unordered-at-most-once / unreliable-membership oracles of its session; after the faults stop and timeout + 3 s of fault-free ticks every session for which a disconnect was decided anywhere has ended on both sides, and every session that stayed healthy has obtained all reliable messages; in 'gentle' cases (no disconnect operation, no silence, at least one genuine datagram per direction forwarded in every third of the timeout) nobody is ever disconnected whatever else the relay does, and at the end every client is connected in both layers on both sides; a transport update never reports 'nothing more to read' (WouldBlock) as an error. Non-trivial: at least one corrupted or replayed datagram after a handshake completed and at least one relay fault. Distinct = hash of the decoded operation trace.".into()
     }
     fn assumptions(&self) -> Vec<String> {
         vec![
@@ -773,6 +786,22 @@ impl Property for C20 {
         }
         for (ci, c) in net.clients.iter().enumerate() {
             let newest = net.clients.iter().rposition(|o| o.id == c.id) == Some(ci);
+            if gentle && newest && !(c.client.is_connected() && net.server.is_connected(c.id) && net.st.client_addr(c.id) == Some(c.back_addr)) {
+                // bounded liveness through the full stack: no disconnect operation, genuine datagrams kept flowing, then timeout + 3 s
+                // without any fault: the handshake has completed in both layers on both sides
+                return Err(Fail::new(
+                    "full_stack_handshake_not_completed",
+                    format!(
+                        "gentle case: client object {ci} (id {}) is not connected on both sides after {heal_ticks} fault-free ticks: RenetClient connected={} connecting={}, netcode client reason {:?}, RenetServer connected={}, netcode server holds its session={}",
+                        c.id,
+                        c.client.is_connected(),
+                        c.client.is_connecting(),
+                        c.transport.disconnect_reason(),
+                        net.server.is_connected(c.id),
+                        net.st.client_addr(c.id) == Some(c.back_addr)
+                    ),
+                ));
+            }
             if c.disconnect_decided {
                 // the session ended on both sides
                 if !c.client.is_disconnected() && c.ever_connected_client {
